@@ -100,6 +100,70 @@ Theorem C07_wait_judge_forged_only : forall c msgs outs,
 Proof. exact outs_justified_forged_only. Qed.
 Print Assumptions C07_wait_judge_forged_only.
 
+(* The retried attempt (after a retryable failure): handleError tells the watcher the EMPTY
+   coordinator id ([wc] = None, as coded) although the attempt has a coordinator c - the winner of the
+   bully election, which waitForStart is told.  Whether the watcher is told nothing or c: for every
+   interleaving and duplication of initiate / start / fail messages and from every state, what the
+   relayer does depends only on c's own messages; in particular a fail message from any other
+   peer - even a legitimate committee member - never aborts the retried attempt. *)
+Theorem C07_retry_only_coordinator_moves : forall wc c msgs st,
+  wc = None \/ wc = Some c ->
+  run_wait2 wc (Some c) st msgs = run_wait2 wc (Some c) st (filter (from_is c) msgs).
+Proof. exact retry_only_coordinator_moves. Qed.
+Print Assumptions C07_retry_only_coordinator_moves.
+
+Theorem C07_retry_forged_only_nothing : forall wc c msgs st,
+  wc = None \/ wc = Some c ->
+  (forall m, In m msgs -> from_is c m = false) -> run_wait2 wc (Some c) st msgs = (st, []).
+Proof. exact retry_forged_only_nothing. Qed.
+Print Assumptions C07_retry_forged_only_nothing.
+
+(* as coded: told the empty id, the watcher of the retried attempt ignores every fail message *)
+Theorem C07_retry_as_coded_never_aborts : forall c msgs st,
+  ~ In OAbort (snd (run_wait2 None c st msgs)).
+Proof. exact retry_as_coded_never_aborts. Qed.
+Print Assumptions C07_retry_as_coded_never_aborts.
+
+(* with the same id on both sides it is the first attempt's behaviour *)
+Theorem C07_run_wait2_same : forall c msgs st, run_wait2 c c st msgs = run_wait c st msgs.
+Proof. exact run_wait2_same. Qed.
+Print Assumptions C07_run_wait2_same.
+
+(* The judge of the retry-phase wait cases is the same specification (every action is caused by a
+   message of the attempt's coordinator; it does NOT demand that the coordinator's own fail message
+   aborts): the model satisfies it, and an accepted observation contains no abort unless the
+   coordinator itself sent a fail message. *)
+Theorem C07_retry_wait_judge_model : forall c2 msgs,
+  outs_justified c2 msgs (snd (retry_wait c2 msgs)) = true.
+Proof. exact retry_wait_judge_model. Qed.
+Print Assumptions C07_retry_wait_judge_model.
+
+Theorem C07_retry_wait_judge_no_foreign_abort : forall c msgs outs,
+  outs_justified c msgs outs = true -> ~ In (MFail c) msgs -> ~ In OAbort outs.
+Proof. exact outs_justified_no_foreign_abort. Qed.
+Print Assumptions C07_retry_wait_judge_no_foreign_abort.
+
+(* This relayer coordinates the retried attempt (event (true, p) = ready message from p,
+   (false, p) = fail message from p): the judge accepts the model for every event stream, and what
+   it accepts was aborted only if a fail message came from the coordinator (this relayer) itself and
+   announces only well-formed subsets without excluded peers. *)
+Theorem C07_retry_coord_judge_model : forall (key : peer -> N) holders t excluded self evs,
+  In self holders -> ~ In self excluded ->
+  retry_coord_ok holders t excluded self evs
+    (fst (retry_coord key holders t excluded self evs)) (snd (retry_coord key holders t excluded self evs)) = true.
+Proof. exact retry_coord_ok_model. Qed.
+Print Assumptions C07_retry_coord_judge_model.
+
+Theorem C07_retry_coord_judge_sound : forall holders t excluded self evs run aborted,
+  retry_coord_ok holders t excluded self evs run aborted = true ->
+  (aborted = true -> In (false, self) evs)
+  /\ (forall S, run = Some S ->
+        Z.of_nat (length S) = (t + 1)%Z /\ NoDup S /\ (forall p, In p S -> In p holders)
+        /\ (forall p, In p S -> p = self \/ In (true, p) evs) /\ In self S
+        /\ (forall p, In p S -> ~ In p excluded)).
+Proof. exact retry_coord_ok_sound. Qed.
+Print Assumptions C07_retry_coord_judge_sound.
+
 (* Non-vacuity: three key holders listed in two orders elect the same coordinator; a ready stream
    with a duplicate, an outsider (7) and an excluded peer (2) yields a well-formed subset; a forged
    start and a forged fail are ignored while the coordinator's own messages act. *)
@@ -110,5 +174,10 @@ Example C07_nonvacuous :
      = ([[1; 7]; [1; 7]; [1; 7]; [1; 7; 3]]%N, Some [1; 3]%N)
   /\ subset_ok [0; 1; 2; 3]%N 1%Z [2]%N 1%N [7; 2; 1; 3; 0]%N [1; 3]%N = true
   /\ run_wait (Some 1%N) Waiting [MStart 0%N (Some [0]%N); MFail 2%N; MInitiate 1%N; MStart 1%N (Some [1; 3]%N); MFail 0%N; MFail 1%N]
-     = (Finished, [OReady 1%N; ORun [1; 3]%N; OAbort]).
+     = (Finished, [OReady 1%N; ORun [1; 3]%N; OAbort])
+  (* retried attempt, coordinator 1: forged fails (2, 0) and even 1's own fail are ignored as coded *)
+  /\ retry_wait 1%N [MFail 2%N; MInitiate 1%N; MStart 0%N (Some [0]%N); MStart 1%N (Some [1; 3]%N); MFail 0%N; MFail 1%N]
+     = (Running, [OReady 1%N; ORun [1; 3]%N])
+  /\ retry_coord key [0; 1; 2; 3]%N 1%Z [2]%N 1%N [(false, 3); (true, 2); (false, 0); (true, 3)]%N = (Some [1; 3]%N, false)
+  /\ retry_coord_ok [0; 1; 2; 3]%N 1%Z [2]%N 1%N [(false, 3); (true, 2); (false, 0); (true, 3)]%N (Some [1; 3]%N) true = false.
 Proof. vm_compute. repeat split. Qed.
